@@ -26,6 +26,10 @@ type C09Case struct {
 	Prefix []Block   `json:"prefix,omitempty"` // history applied to the model only; the forest then starts from its bare roots
 	Steps  []C09Step `json:"steps"`
 	Ext    bool      `json:"ext,omitempty"` // the forest runs on caller-supplied stores (see Cfg.Ext)
+	// PreUndo: the undo records of the Prefix blocks are available too, so that "undo" steps can take the
+	// forest back BELOW the state it was started from (a node bootstrapped from a roots snapshot that sees
+	// a reorganisation reaching behind the snapshot)
+	PreUndo bool `json:"preundo,omitempty"`
 }
 
 func genC09(t *rapid.T) C09Case {
@@ -35,9 +39,8 @@ func genC09(t *rapid.T) C09Case {
 	f := &model.Forest{}
 	if rapid.IntRange(0, 2).Draw(t, "fromroots") == 0 {
 		n := rapid.IntRange(1, 6).Draw(t, "nprefix")
-		for i := 0; i < n; i++ {
-			c.Prefix = append(c.Prefix, genBlock(t, f, lim, false))
-		}
+		c.Prefix = make([]Block, n)
+		c.PreUndo = rapid.IntRange(0, 2).Draw(t, "preundo") == 0
 	}
 	type frame struct {
 		f       *model.Forest
@@ -46,6 +49,14 @@ func genC09(t *rapid.T) C09Case {
 	}
 	tracked := map[int]bool{}
 	var stack []frame
+	for i := 0; i < len(c.Prefix); i++ {
+		before := f.Clone()
+		b := genBlock(t, f, lim, false)
+		c.Prefix[i] = b
+		if c.PreUndo {
+			stack = append(stack, frame{f: before, tracked: map[int]bool{}, del: b.Del})
+		}
+	}
 	copyT := func() map[int]bool {
 		m := map[int]bool{}
 		for k := range tracked {
@@ -169,12 +180,14 @@ type c09Frame struct {
 	delH   []Hash
 	proof  u.Proof
 	roots  []Hash
+	pre    bool // a block of the prefix: applied before the forest was started from the bare roots
 }
 
 func runC09(c C09Case) *Result {
 	res := &Result{}
 	f := &model.Forest{}
 	var in *Inst
+	var stack []c09Frame
 	if len(c.Prefix) > 0 {
 		for _, b := range c.Prefix {
 			for _, s := range b.Del {
@@ -182,7 +195,15 @@ func runC09(c C09Case) *Result {
 					return res.failf("case error: prefix deletes a slot that is not live")
 				}
 			}
+			if c.PreUndo {
+				v := f.View()
+				delH := f.HashesOf(b.Del)
+				stack = append(stack, c09Frame{before: f.Clone(), b: b, delH: delH, proof: v.Proof(delH), roots: cloneHashes(v.Roots), pre: true})
+			}
 			applyToModel(f, b)
+		}
+		if c.PreUndo {
+			res.class("start:from-roots-with-earlier-undo-records")
 		}
 		v := f.View()
 		m := u.NewMapPollardFromRoots(cloneHashes(v.Roots), v.N, false)
@@ -213,7 +234,6 @@ func runC09(c C09Case) *Result {
 	if err := check("initially"); err != nil {
 		return res.failf("%v", err)
 	}
-	var stack []c09Frame
 	sawDelBlock, special := false, false
 	for i, st := range c.Steps {
 		switch st.Op {
@@ -391,6 +411,9 @@ func runC09(c C09Case) *Result {
 				tracked[s] = true
 			}
 			special = special || sawDelBlock
+			if fr.pre {
+				res.count("undos-reaching-behind-the-roots-snapshot", 1)
+			}
 			if err := check(fmt.Sprintf("step %d after Undo of block {del %v, add %d}", i, fr.b.Del, fr.b.Add)); err != nil {
 				return res.failf("%v", err)
 			}
